@@ -12,6 +12,7 @@ Sub-properties
            against the real-pair formulas.
   ndarray  Obs (op) ndarray in both orders is the element-wise operation.
 """
+import cmath
 import math
 
 import numpy as np
@@ -502,7 +503,11 @@ def cobs_case(draw, tier):
                                             ('cobs_zero_imag', 'cobs_num_imag'), ('cobs_zero_imag', 'complex'), ('complex', 'cobs_zero_imag'),
                                             ('obs', 'cobs_zero_imag'), ('cobs_zero_real', 'float')]))
         op = draw(st.sampled_from(['*', '*', '/', '+']))
-    return {'ops': ops, 'mode': mode, 'left': left, 'right': right, 'op': op,
+    pow_order = None
+    if draw(st.integers(0, 11)) == 0:
+        op, left, right = '**', 'obs', 'complex'
+        pow_order = draw(st.sampled_from(['obs_base', 'obs_base', 'obs_exponent']))
+    return {'ops': ops, 'mode': mode, 'left': left, 'right': right, 'op': op, 'pow_order': pow_order,
             'lnum': draw(cnum()), 'rnum': draw(cnum())}
 
 
@@ -631,6 +636,38 @@ def cobs_oracle(spec):
     L, (lr, li) = _mk_operand(pe, spec['left'], l1, l2, spec['lnum'])
     R, (rr, ri) = _mk_operand(pe, spec['right'], r1, r2, spec['rnum'])
     op = spec['op']
+    if op == '**':
+        # real observable to a complex power (and complex number to an observable power): x**z = exp(z log x)
+        z = to_complex(spec['rnum'])
+        if abs(z.imag) < 0.1:
+            z = complex(z.real, 0.5)
+        a_, b_ = z.real, z.imag
+        x0 = float(l1.value)
+        if not x0 > 0.05:
+            raise Skip('base not safely positive')
+        ref = RefObs.from_pe(l1)
+        if spec.get('pow_order', 'obs_base') == 'obs_base':
+            res = l1 ** z
+            lx = math.log(x0)
+            fr_, fi_ = x0 ** a_ * math.cos(b_ * lx), x0 ** a_ * math.sin(b_ * lx)
+            gr_ = x0 ** (a_ - 1) * (a_ * math.cos(b_ * lx) - b_ * math.sin(b_ * lx))
+            gi_ = x0 ** (a_ - 1) * (a_ * math.sin(b_ * lx) + b_ * math.cos(b_ * lx))
+            what = 'Obs ** complex'
+        else:
+            res = z ** l1
+            w_ = cmath.log(z)
+            val = cmath.exp(w_ * x0)
+            der = w_ * val
+            fr_, fi_, gr_, gi_ = val.real, val.imag, der.real, der.imag
+            what = 'complex ** Obs'
+        require(isinstance(res, pe.CObs), what + ' did not return a CObs', type(res).__name__)
+        for nm, part, fv, gv in (('real', res.real, fr_, gr_), ('imag', res.imag, fi_, gi_)):
+            rf = combine(lambda v, fv=fv: fv, [gv], [ref], value=fv)
+            rf.mag = {k: max(rf.mag.get(k, 0.0), (abs(gr_) + abs(gi_)) * m) for k, m in ref.mag.items()}
+            rf.cgmag = {k: max(rf.cgmag.get(k, 0.0), (abs(gr_) + abs(gi_)) * m) for k, m in ref.cgmag.items()}
+            rf.vmag = max(rf.vmag, abs(fr_) + abs(fi_))
+            cmp_obs(rf, part, '%s part of %s (exponent %r)' % (nm, what, z), rtol=1e-9, atol_scale=1e-11, vtol=1e-11, check_rv=False)
+        return {'nt': True, 'cls': ['pair:' + what, 'mode:' + spec.get('mode', '')]}
     if op == '+':
         res = L + R
     elif op == '-':
